@@ -324,6 +324,22 @@ where
             || format!("drawing as_image() at {:?} differs from the written content at {:?}", o, rec.log().map.first_diff(&want)),
         );
     }
+    // ... and on a bounded target the visible part of it (edges coinciding with or cutting through
+    // the image, only its first column and row visible)
+    if let Some(boxes) = egmon::target::cut_boxes(&want) {
+        ctx.eval();
+        let bx = boxes[(rng.below(5)) as usize];
+        let mut rec = IterTarget::<C>::new(bx);
+        let _ = fb.draw_as_image(&mut rec, o);
+        let want_in = egmon::target::restrict(&want, &bx);
+        if !rec.log().map.same(&want_in) {
+            ctx.violation(
+                format!("{}|as_image-on-bounded-target-differs", klass(bpp, F::ALT)),
+                || format!("{} {}x{} N={} ops: {}", name, w, h, F::N, trace.join("; ")),
+                || format!("drawing as_image() at {:?} on target box {:?} differs from the visible part of the written content at {:?}", o, egmon::target::rt(&bx), rec.log().map.first_diff(&want_in)),
+            );
+        }
+    }
     if fb.bounding_box() != rect(0, 0, w as u32, h as u32) {
         ctx.violation(format!("{}|size", klass(bpp, F::ALT)), || name.to_string(), || format!("{:?}", fb.bounding_box()));
     }
